@@ -160,7 +160,7 @@ def run_tlc(module, cfg, use_cache=True, extra_args=(), env_extra=None, timeout=
 # ---------------------------------------------------------------------------------------------
 # replay
 # ---------------------------------------------------------------------------------------------
-def run_replay(cases_file, props, tag, extra=()):
+def run_replay(cases_file, props, tag, extra=(), traces=False):
     """Run the harness over a cases file in NSHARDS processes; crashes and hangs are data."""
     os.makedirs(os.path.join(WORK, "replay"), exist_ok=True)
     procs = []
@@ -170,11 +170,14 @@ def run_replay(cases_file, props, tag, extra=()):
         for f in (o, p):
             if os.path.exists(f):
                 os.remove(f)
-        procs.append({"shard": s, "out": o, "progress": p, "skip": 0, "proc": None, "parts": [], "abnormal": []})
+        procs.append({"shard": s, "out": o, "progress": p, "skip": 0, "proc": None, "parts": [], "abnormal": [],
+                      "traces": os.path.join(WORK, "replay", "%s.%d.traces.ndjson" % (tag, s)) if traces else None})
 
     def start(pr):
         cmd = [BIN, "replay", "--cases", cases_file, "--out", pr["out"], "--props", ",".join(props),
                "--shard", "%d/%d" % (pr["shard"], NSHARDS), "--progress", pr["progress"], "--skip-to", str(pr["skip"])] + list(extra)
+        if pr["traces"]:
+            cmd += ["--traces", pr["traces"]]
         pr["proc"] = subprocess.Popen(cmd, stdout=subprocess.DEVNULL, stderr=subprocess.PIPE, text=True)
 
     for pr in procs:
@@ -231,6 +234,78 @@ def run_negative(prop, only_portable):
         elif "error" not in r.stdout:
             raise ToolError("negative build of %s failed without a compiler error:\n%s" % (n["id"], r.stdout[-500:]))
     return rep
+
+
+def tlc_trace(module, cfg, trace_file, timeout=1200):
+    """TLC trace validation: accepts iff every recorded event is a step of the specification."""
+    metadir = os.path.join(WORK, "tlc", "meta.trace.%s.%d" % (module, os.getpid()))
+    cmd = ["timeout", str(timeout), "java", "-XX:+UseParallelGC", "-Xmx6g", "-Xss1g", "-Dtlc2.tool.queue.IStateQueue=StateDeque",
+           "-cp", TLA_CP, "tlc2.TLC", "-workers", "1", "-metadir", metadir, "-cleanup", "-noGenerateSpecTE", "-config", cfg, module + ".tla"]
+    t0 = time.time()
+    r = subprocess.run(cmd, cwd=SPEC, stdout=subprocess.PIPE, stderr=subprocess.STDOUT, text=True, env=dict(os.environ, TRACE=trace_file))
+    shutil.rmtree(metadir, ignore_errors=True)
+    out = r.stdout
+    rejected = [l for l in out.splitlines() if "TRACE-REJECTED" in l]
+    m = re.search(r"(\d+) states generated, (\d+) distinct states found", out)
+    ok = r.returncode == 0 and not rejected and "No error has been found" in out
+    if not ok and not rejected:
+        raise ToolError("TLC trace validation %s failed (rc=%s):\n%s" % (module, r.returncode, "\n".join(out.splitlines()[-15:])))
+    return {"accepted": ok, "rejected": rejected[:1], "states": int(m.group(2)) if m else 0, "wall_s": round(time.time() - t0, 1),
+            "cmd": "TRACE=%s tlc -workers 1 -config %s %s.tla" % (os.path.relpath(trace_file, ROOT), cfg, module)}
+
+
+def run_trace_step(prop, stp, seed):
+    """impl -> spec: a seeded driver exercises the real library, TLC judges the recorded trace."""
+    os.makedirs(os.path.join(WORK, "traces"), exist_ok=True)
+    trace = os.path.join(WORK, "traces", "%s.%s.ndjson" % (prop, stp["driver"]))
+    r = sh([BIN, "drive", "--kind", stp["driver"], "--types", ",".join(stp["types"]), "--n", str(stp["n"]), "--steps", str(stp.get("steps", 40)),
+            "--seed", str(seed), "--out", trace])
+    if r.returncode != 0:
+        raise ToolError("driver failed: " + r.stdout[-500:])
+    nev = sum(1 for _ in open(trace))
+    res = tlc_trace("TraceFlat", "TraceFlat.cfg", trace)
+    rep = {"cases_run": nev, "counts": {"trace.%s.events" % stp["driver"]: nev, "judged." + prop: nev}, "samples": {}, "sigs": {}, "kept": [], "trace": res}
+    with open(trace) as f:
+        first = f.readline().strip()
+        if first:
+            rep["samples"]["trace." + stp["driver"]] = json.loads(first)
+    if not res["accepted"]:
+        line = res["rejected"][0]
+        m = re.search(r'"event", (\d+), "(.*)">>', line)
+        ev = {}
+        if m:
+            try:
+                ev = json.loads(json.loads('"' + m.group(2) + '"'))
+            except Exception:
+                ev = {"raw": m.group(2)[:2000]}
+        what = ev.get("ev", "?") + ("." + str(ev.get("op", {}).get("op", "")) if isinstance(ev.get("op"), dict) else "") + ("." + ev.get("what", "") if ev.get("ev") == "panic" else "")
+        sig = "%s|trace|%s|%s" % (prop, ev.get("id", "?"), what)
+        v = {"prop": prop, "sig": sig, "detail": "recorded event %s is not a step of the specification: %s" % (m.group(1) if m else "?", json.dumps(ev)[:600]),
+             "case": {"k": "trace", "step": {k: stp[k] for k in stp if k != "type"}, "seed": seed, "event": ev}}
+        rep["sigs"][sig] = {"count": 1, "first": v}
+    return rep
+
+
+def validate_io_traces(prop, traces_files, limit):
+    """Trace validation of recorded receiver runs (hook + pipe events) against the permissive receiver specification."""
+    os.makedirs(os.path.join(WORK, "traces"), exist_ok=True)
+    merged = os.path.join(WORK, "traces", "%s.iorecv.ndjson" % prop)
+    n = 0
+    with open(merged, "w") as out:
+        for tf in traces_files:
+            if not os.path.exists(tf):
+                continue
+            for i, line in enumerate(open(tf)):
+                if n >= limit:
+                    break
+                if i % 7 == 0:       # a spread sample of the recorded runs
+                    out.write(line)
+                    n += 1
+    if n == 0:
+        return None
+    res = tlc_trace("TraceIoRecv", "TraceIoRecv.cfg", merged)
+    res["runs"] = n
+    return res
 
 
 def fetch_case(cases_file, index):
@@ -361,6 +436,7 @@ def finish(prop, tier, seed, t0, steps, plan, known):
         "tlc_runs": [{k: st["tlc"].get(k) for k in ("module", "cfg", "states", "distinct", "depth", "wall_s", "cached", "key")} for st in steps if st.get("tlc")],
         "outcome_classes": {k: v for k, v in sorted(counts.items()) if not k.startswith("judged.")},
         "known_findings_met": [k["sig"] for k, _ in knownhits.values()],
+        "trace_validation": [st["replay"]["trace"] for st in steps if st["replay"].get("trace")],
     }
     write_evidence(prop, tier, seed, "model_checking", coverage, plan.get("assumptions", []), time.time() - t0, nviol)
     return 1 if nviol else 0
@@ -392,6 +468,18 @@ def main(argv):
     try:
         build_harness()
         if argv[1] == "--replay":
+            rf = json.load(open(argv[2]))
+            kind = (rf.get("case") or {}).get("k")
+            if kind == "trace" and "driver" in rf["case"].get("step", {}):
+                rep = run_trace_step(prop, dict(rf["case"]["step"], type="trace"), rf["case"].get("seed", 1))
+                for sig, e in rep["sigs"].items():
+                    print("VIOLATION property=%s sig=%s detail=%s" % (prop, sig, e["first"]["detail"][:400]))
+                return 1 if rep["sigs"] else 0
+            if kind == "neg":
+                rep = run_negative(prop, False)
+                for sig, e in rep["sigs"].items():
+                    print("VIOLATION property=%s sig=%s detail=%s" % (prop, sig, e["first"]["detail"][:400]))
+                return 1 if rep["sigs"] else 0
             r = subprocess.run([BIN, "one", "--file", argv[2], "--props", prop])
             return r.returncode
         tier = argv[1]
@@ -411,9 +499,23 @@ def main(argv):
                     steps.append(st)
                     continue
                 tr = time.time()
-                procs = run_replay(st["tlc"]["out"], [prop], "%s.%s" % (prop, os.path.splitext(stp["cfg"])[0]), stp.get("extra", ()))
+                procs = run_replay(st["tlc"]["out"], [prop], "%s.%s" % (prop, os.path.splitext(stp["cfg"])[0]), stp.get("extra", ()), traces=stp.get("io_traces", False))
                 st["replay"] = merge_replay(procs, st["tlc"]["out"], [prop])
+                if stp.get("io_traces"):
+                    tv = validate_io_traces(prop, [pr["traces"] for pr in procs], stp.get("io_traces_limit", 400))
+                    if tv is not None:
+                        st["replay"]["trace"] = tv
+                        st["replay"]["counts"]["trace.iorecv.runs"] = tv["runs"]
+                        log("TLC trace validation of %d recorded receiver runs: %s (%d states, %.1fs)" % (tv["runs"], "accepted" if tv["accepted"] else "REJECTED", tv["states"], tv["wall_s"]))
+                        if not tv["accepted"]:
+                            sig = "%s|trace|iorecv|rejected" % prop
+                            st["replay"]["sigs"][sig] = {"count": 1, "first": {"prop": prop, "sig": sig, "detail": "recorded receiver run is not a behaviour of the permissive receiver specification: " + tv["rejected"][0][:600],
+                                                                               "case": {"k": "trace", "step": {"io": stp["cfg"]}}}}
                 log("replayed %d cases in %.1fs, %d violation signatures" % (st["replay"]["cases_run"], time.time() - tr, len(st["replay"]["sigs"])))
+            elif stp["type"] == "trace":
+                st["replay"] = run_trace_step(prop, stp, seed)
+                tr = st["replay"]["trace"]
+                log("driver %s: %d events, TLC trace validation %s (%d states, %.1fs)" % (stp["driver"], st["replay"]["cases_run"], "accepted" if tr["accepted"] else "REJECTED", tr["states"], tr["wall_s"]))
             elif stp["type"] == "negative":
                 st["replay"] = run_negative(prop, stp.get("only_portable", False))
                 log("negative catalog: %d definitions must not compile, %d accepted" % (st["replay"]["cases_run"], len(st["replay"]["sigs"])))
